@@ -22,8 +22,8 @@ def sh(cmd, cwd=None, timeout=3000):
     return p.returncode, p.stdout.decode(errors="replace")
 
 
-def confirm(pid, i):
-    wt = "/tmp/wt_%s" % pid
+def confirm(pid, i, wtprefix="/tmp/wt_", offset=0):
+    wt = wtprefix + pid
     diff, demo, meta = [os.path.join(wt, "%s%s.%s" % (n, i, ext)) for n, ext in (("mutant", "diff"), ("demo", "rs"), ("meta", "txt"))]
     assert os.path.exists(diff) and os.path.exists(demo), "deliverables missing"
     log = {}
@@ -52,11 +52,12 @@ def confirm(pid, i):
     if not ok:
         print(json.dumps(log, indent=1))
         return 1
-    d = os.path.join(SEEDED, "%s-%s" % (pid, i))
+    sid = "%s-%d" % (pid, int(i) + int(offset))
+    d = os.path.join(SEEDED, sid)
     os.makedirs(d, exist_ok=True)
     shutil.copy(diff, os.path.join(d, "patch.diff"))
     shutil.copy(demo, os.path.join(d, "demo.rs"))
-    m = {"id": "%s-%s" % (pid, i), "breaks_property": pid,
+    m = {"id": sid, "breaks_property": pid,
          "written_by": "independent sub-agent given only the property text and a scratch worktree of /repo",
          "what_it_does_and_needs": open(meta).read().strip() if os.path.exists(meta) else "",
          "confirmed": log,
@@ -122,7 +123,7 @@ def table():
 
 if __name__ == "__main__":
     if sys.argv[1] == "confirm":
-        sys.exit(confirm(sys.argv[2], sys.argv[3]))
+        sys.exit(confirm(*sys.argv[2:]))
     if sys.argv[1] == "run":
         sys.exit(run(sys.argv[2], sys.argv[3:]))
     if sys.argv[1] == "table":
